@@ -12,8 +12,9 @@ C11 — a dead connection handle stays dead and never touches the transport agai
 namespace Minimq
 open Gen World
 
-/-- No API call on a dead handle touches a transport, revives the handle or changes the session;
-every network operation reports `Disconnected`, `disconnect` reports `Ok`. -/
+/-- No API call on a dead handle touches a transport, revives the handle or changes the session
+(the results — `Disconnected`, `Ok` for `disconnect` — are `C11_dead_results`; any number of calls:
+`C11_dead_forever`). -/
 theorem C11_dead_stays_dead (w : World) (d : Directive) (h : w.dead)
     (hd : match d with
       | .publish _ | .subscribe _ | .unsubscribe _ | .disconnect _ | .poll | .recv | .drive
